@@ -62,6 +62,11 @@ def cases(tier, seed, ctx=None):
                 [(b"d\xc3\xafr", 1), (b"x<\xc3\xa9>.txt", 0)]):
         tree = [[b"root/d", 1, b""]] + [[b"root/d/" + n + (b"/k" if isd else b""), 0, b"c"] for n, isd in sel]
         yield ("fs", [tree, b"@BASE@/root", b"d/", [], ver, [8, 1, [[n, isd] for n, isd in sel]]], "listing-utf8")
+    # entries whose names differ only in case: each of them is listed
+    for sel in ([(b"Makefile", 0), (b"makefile", 0), (b"MAKEFILE", 0)], [(b"Docs", 1), (b"docs", 1), (b"a.txt", 0), (b"A.TXT", 0)]):
+        tree = [[b"root/d", 1, b""]] + [[b"root/d/" + n + (b"/k" if isd else b""), 0, b"c"] for n, isd in sel]
+        # (the order among names that are equal but for case is the directory's business: judged by the statement alone)
+        yield ("fsl", [tree, b"@BASE@/root", b"d/", [], ver, [8, 1, [[n, isd] for n, isd in sel]]], "listing-case-variants")
     tree = [[b"root/d\xc3\xafr/k.txt", 0, b"c"], [b"root/\xe4\xb8\xad/sub/k", 0, b"c"]]
     for path, ents in ((b"d\xc3\xafr/", [[b"k.txt", 0]]), (b"d%C3%AFr", [[b"k.txt", 0]]), (b"\xe4\xb8\xad/", [[b"sub", 1]])):
         yield ("fs", [tree, b"@BASE@/root", path, [], ver, [8, 1, ents]], "listing-utf8-dir")
